@@ -14,6 +14,7 @@ package parser2
 //@   safety C04
 //@   ensures[cached] old(t.isLast) ==> result == old(t.last) && t.isLast && t.str == old(t.str) && t.last == old(t.last)
 //@   ensures[progress] !old(t.isLast) ==> (result == EOF && !t.isLast && len(t.str) <= old(len(t.str))) || (t.isLast && result == t.last && len(t.str) < old(len(t.str)))
+//@   ensures[aliases-replaced C15] !old(t.isLast) ==> result != '•' && result != '×' && result != '÷' && result != '–' && result != 'ˆ'
 //@   assigns t.str, t.last, t.isLast, t.line
 //@   loop 1 invariant !t.isLast && len(t.str) < old(len(t.str))
 //@   loop 1 decreases len(t.str)
@@ -49,10 +50,20 @@ package parser2
 //@   loop 1 invariant rem(t) <= old(rem(t))
 //@   loop 1 decreases rem(t)
 
+// C15, escape decoding: which rune is written for which source rune(s). (That the source rune itself is what the text
+// contains is NOT covered: peek rewrites the typographic aliases also inside literals - confirmed defect, DESIGN 8.4.)
 //@ func (t *Tokenizer) readStr
 //@   property C04
 //@   safety C04
 //@   ensures rem(t) <= old(rem(t))
+//@   ensures[string-or-invalid C15] result.typ == tString || (result.typ == tInvalid && result.image == "EOL")
+//@   assert[escape-n C15] "str.WriteRune('\\n')" c == '\\' && i == 'n'
+//@   assert[escape-r C15] "str.WriteRune('\\r')" c == '\\' && i == 'r'
+//@   assert[escape-t C15] "str.WriteRune('\\t')" c == '\\' && i == 't'
+//@   assert[escape-quote C15] "str.WriteRune('\"')" c == '\\' && i == '"'
+//@   assert[escape-backslash C15] "str.WriteRune('\\\\')" c == '\\'
+//@   assert[unknown-escape-kept C15] "str.WriteRune(i)" c == '\\' && i != 'n' && i != 'r' && i != 't' && i != '"' && i != '\\'
+//@   assert[plain-rune C15] "str.WriteRune(c)" c != '"' && c != '\\' && c != 0 && c != '\n' && c != '\r'
 //@   assigns t.str, t.last, t.isLast, t.line
 //@   loop 1 invariant rem(t) <= old(rem(t))
 //@   loop 1 decreases rem(t)
